@@ -323,7 +323,7 @@ def table_integer(value: int) -> bytes:
         return b'i' + long_uint(value)
     elif -9223372036854775808 <= value <= 9223372036854775807:
         return b'l' + long_long_int(value)
-    raise TypeError('Unsupported numeric value: {}'.format(value))
+    raise TypeError(_unsupported_numeric(value))
 
 
 def _deprecated_table_integer(value: int) -> bytes:
@@ -343,7 +343,20 @@ def _deprecated_table_integer(value: int) -> bytes:
         return b'I' + long_int(value)
     elif -9223372036854775808 <= value <= 9223372036854775807:
         return b'l' + long_long_int(value)
-    raise TypeError('Unsupported numeric value: {}'.format(value))
+    raise TypeError(_unsupported_numeric(value))
+
+
+def _unsupported_numeric(value: int) -> str:
+    """Error text for a number that no field-table integer type can hold
+
+    Python refuses to convert integers of more than 4300 digits to a decimal
+    string, fall back to hexadecimal for those.
+
+    """
+    try:
+        return 'Unsupported numeric value: {}'.format(value)
+    except ValueError:
+        return 'Unsupported numeric value: {:#x}'.format(value)
 
 
 def _string(encoder: struct.Struct, value: str) -> bytes:
